@@ -1367,9 +1367,12 @@ def f_float_arith(c):
     if nm == 'logb' and len(c.P) == 1 and c.RT.ct == t.ct:
         ens = [('logb lane %d' % i, 'spec_logb_ok%s(%s, %s)' % (fsuf(t), t.lane(RV, i), t.lane(a0, i))) for i in range(t.W)]
         return Contract('float_logb', ['C12'] + sc, ensures=ens, cxx='avel::logb({0})')
-    if nm in ('ldexp', 'scalbn') and len(c.P) == 2 and c.RT.ct == t.ct and c.PT[1].elem and c.PT[1].isint and c.PT[1].W == t.W and t.bits == 32:
+    if nm in ('ldexp', 'scalbn') and len(c.P) == 2 and c.RT.ct == t.ct and c.PT[1].elem and c.PT[1].isint and c.PT[1].W == t.W:
         et = c.PT[1]
-        ens = [('%s lane %d' % (nm, i), 'spec_ldexp_ok32(%s, %s, (int32_t)spec_sx(%s, %d))' % (t.lane(RV, i), t.lane(a0, i), et.lane(c.a(1), i), et.bits)) for i in range(t.W)]
+        if t.bits == 32:
+            ens = [('%s lane %d' % (nm, i), 'spec_ldexp_ok32(%s, %s, (int32_t)spec_sx(%s, %d))' % (t.lane(RV, i), t.lane(a0, i), et.lane(c.a(1), i), et.bits)) for i in range(t.W)]
+        else:
+            ens = [('%s lane %d' % (nm, i), 'spec_ldexp_ok64(%s, %s, spec_sx(%s, %d))' % (t.lane(RV, i), t.lane(a0, i), et.lane(c.a(1), i), et.bits)) for i in range(t.W)]
         return Contract('float_' + nm, ['C12'] + sc, ensures=ens, cxx='avel::%s({0}, {1})' % nm, setup=RM_SETUP)
     return None
 
